@@ -99,7 +99,8 @@ def main(argv: list[str]) -> int:
         return worst
     if args.cmd == "selftest":
         from .selftest import runner
-        return runner.main(["--jobs", str(args.jobs)] + (["--only", args.only] if args.only else []))
+        # mutants, reverts of the repairs and twins; the seeded changes are confirmed by tools/confirm_seeds.py (`--kinds seed` of the runner runs them too)
+        return runner.main(["--jobs", str(args.jobs), "--kinds", "mutant,revert,twin"] + (["--only", args.only] if args.only else ["--write"]))
     return 2
 
 
